@@ -11,7 +11,7 @@ CONTROLS = [
     ("C11-m1", "C13", "B1-atomic"),
     ("C04-m2", "C13", "B2-save-order"),
     ("revert-D12", "C19", "K-layout"),
-    ("revert-D11", "C16", "F1-aligned"),
+    ("revert-D11", "C16", "W-buf"),
     ("revert-D1", "C01", "RT-doc"),
     ("C14-r3m2", "C14", "V-fresh"),
 ]
